@@ -25,7 +25,7 @@ import copy
 import json
 
 FEATURES = ("lit", "pos_default", "kw_default", "set_const", "tuple_const", "lambda_const", "lambda_default",
-            "inner_const", "inner_default", "comp_const", "set_tuple_const", "set_bytes_const")
+            "inner_const", "inner_default", "comp_const", "set_tuple_const", "set_bytes_const", "genexp_str", "genexp_after")
 
 
 def mkfunc(name, kind="memento", module="a", calls=(), reads=(), version=None, rich=True, cluster=None):
@@ -37,7 +37,9 @@ def mkfunc(name, kind="memento", module="a", calls=(), reads=(), version=None, r
                   "lambda_default": 5, "inner_const": 1000, "inner_default": 6, "comp_const": 2,
                   # set literals without a direct string element: tuples of strings, bytes (membership test = frozenset constant)
                   "set_tuple_const": [["eur", "usd"], ["gbp", "usd"], ["chf", "eur"], ["jpy", "usd"], ["eur", "jpy"]],
-                  "set_bytes_const": ["bin", "hex", "oct", "dec", "b64"]})
+                  "set_bytes_const": ["bin", "hex", "oct", "dec", "b64"],
+                  # a generator expression (its own code object) whose FIRST constant is a string literal, and one where it is not
+                  "genexp_str": "item-", "genexp_after": "-end"})
     return f
 
 
@@ -126,6 +128,9 @@ def render_func(f, prog, plain):
                    % (", ".join(repr(tuple(t)) for t in f["set_tuple_const"]), ", ".join(repr(tuple(t)) for t in f["set_tuple_const"])))
         out.append("    acc.append([b'bin' in {%s}, sorted(t.decode() for t in {%s})])"
                    % (", ".join(repr(t.encode()) for t in f["set_bytes_const"]), ", ".join(repr(t.encode()) for t in f["set_bytes_const"])))
+    if "genexp_str" in f:
+        out.append("    acc.append(','.join(%r + str(i) for i in range(2)))" % f["genexp_str"])
+        out.append("    acc.append(','.join(str(i) + %r for i in range(2)))" % f["genexp_after"])
     if "set_const" in f:
         out.append("    acc.append((lambda z=%r: z + %r)())" % (f["lambda_default"], f["lambda_const"]))
         out.append("    acc.append([i * %r for i in range(2)])" % f["comp_const"])
